@@ -61,9 +61,15 @@ class Env:
     def __init__(self, fn: ast.FunctionDef):
         self.fn = fn
         self.at: Dict[int, Dict[str, Alts]] = {}     # id(stmt) -> env BEFORE the statement
+        self.ver: Dict[str, int] = {}
         env: Dict[str, Alts] = {}
         self._block(fn.body, env)
         self.final = env
+
+    def fresh(self, name: str) -> Alts:
+        """a value that is not a recognised sequence form: an atomic base of its own, distinct per (re)binding"""
+        self.ver[name] = self.ver.get(name, 0) + 1
+        return frozenset([Seq(f"{name}#{self.ver[name]}")])
 
     def _block(self, stmts: List[ast.stmt], env: Dict[str, Alts]) -> None:
         for st in stmts:
@@ -72,30 +78,30 @@ class Env:
                 if isinstance(sub, ast.expr):
                     self.at.setdefault(id(sub), self.at[id(st)])
             if isinstance(st, ast.Assign) and len(st.targets) == 1 and isinstance(st.targets[0], ast.Name):
-                env[st.targets[0].id] = describe(st.value, env)
+                env[st.targets[0].id] = describe(st.value, env) or self.fresh(st.targets[0].id)
             elif isinstance(st, ast.AnnAssign) and isinstance(st.target, ast.Name) and st.value is not None:
-                env[st.target.id] = describe(st.value, env)
+                env[st.target.id] = describe(st.value, env) or self.fresh(st.target.id)
             elif isinstance(st, ast.If):
                 a, b = dict(env), dict(env)
                 self._block(st.body, a)
                 self._block(st.orelse, b)
                 for k in set(a) | set(b):
                     if k not in a or k not in b:
-                        env[k] = OPAQUE          # bound on one arm only
+                        env[k] = self.fresh(k)          # bound on one arm only
                     else:
-                        env[k] = None if a[k] is None or b[k] is None else a[k] | b[k]
+                        env[k] = a[k] | b[k]
             else:
                 # any other statement: names it stores become opaque
                 for n in ast.walk(st):
                     if isinstance(n, ast.Name) and isinstance(n.ctx, (ast.Store, ast.Del)):
-                        env[n.id] = OPAQUE
+                        env[n.id] = self.fresh(n.id)
                 for fld in ("body", "orelse", "finalbody"):
                     if isinstance(getattr(st, fld, None), list):
                         e2 = dict(env)
                         self._block(getattr(st, fld), e2)
                         for k, v in e2.items():
                             if env.get(k, "∅") != v:
-                                env[k] = OPAQUE
+                                env[k] = self.fresh(k)
 
     def of(self, e: ast.AST) -> Alts:
         """alternatives of an expression occurring in the function (environment at its statement)"""
